@@ -23,6 +23,24 @@ def replay(spec):
     if spec.get("facet") == "reuse":
         from .ssa import replay_reuse
         return replay_reuse(spec)
+    if kind == "twice":
+        # the same model simulated twice (every mode): the second run equals the first and equals a fresh model's
+        a = dict(_args(), rules=_args()["rules"] + [("assignment", {"equation": "A = 40"}, 1.0), ("additive", {"equation": "B = A + A"}, "start")])
+        for kw in (dict(stochastic=True), dict(stochastic=False), dict(stochastic=True, safe=True), dict(stochastic=True, volume=1.5),
+                   dict(stochastic=True, delay=True)):
+            M = Model(**a)
+            outs = []
+            for rep in range(2):
+                py_seed_random(3)
+                outs.append(py_simulate_model(tp, Model=M, **kw).to_numpy())
+            py_seed_random(3)
+            fresh = py_simulate_model(tp, Model=Model(**a), **kw).to_numpy()
+            if outs[0].shape != outs[1].shape or not np.allclose(outs[0], outs[1], equal_nan=True):
+                problems.append("py_simulate_model(%s) twice on one model: the second result differs from the first (row at t=%s: %s vs %s)"
+                                % (kw, tp[5], outs[1][5].tolist(), outs[0][5].tolist()))
+            elif not np.allclose(outs[0], fresh, equal_nan=True):
+                problems.append("py_simulate_model(%s): a fresh model gives a different result" % kw)
+        return {"reproduced": bool(problems), "observed": problems[:2], "expected": "the same output every time"}
     if kind == "follow":
         # an interface built earlier, the model's values edited afterwards: simulating through the old interface must equal a
         # fresh model with the new values
